@@ -11,12 +11,25 @@
    Mathematical premises, always explicit hypotheses, never axioms (DESIGN.md section 3):
      M1 c  p is prime        M3 c  t^(p-1) = 1 (mod p) for t <> 0        M4 c  gadd is associative on valid points
      order_kills c P         n * P = O
-   They are DISCHARGED by kernel computation on the toy curves of CurveP.toy_curves (C02_toy_...: no premise left);
-   for the shipped 256/381-bit curves they stay premises, every other side condition is decided by computation on the
-   table regenerated from /repo (Gen/GenCurves.v, C02_shipped_...). *)
+   They are DISCHARGED by kernel computation on the toy curves of CurveP.toy_curves (C02_toy_...: no premise left).
+   M4 is now a THEOREM for every non-singular curve over a prime field with p <> 2 (Proofs/EcAssoc*.v), so:
+   * generic statements: `M4 c` can be replaced by the computable condition `nonsingular c` ((4a^3 + 27b^2) mod p <> 0) and M3 by
+     nothing (it follows from M1): C02_M4_of_nonsingular, C02_*_nonsingular; "n * G = O" can be PROVED by a checked certificate
+     instead of assumed (C02_order_certificate_sound).  `prime p` (M1) stays the hypothesis of the generic statements.
+   * the three shipped generators secp256k1, secp256r1, bls12_381_g1 (table regenerated from /repo, Gen/GenCurves.v): NO
+     mathematical premise is left (C02_shipped_all_premises, C02_shipped_*_unconditional):
+       M1 (and M2: n prime)   Pocklington certificates re-checked by the kernel, Proofs/Pocklington.v + CurvePrimes.v + CurvePrimesEc.v
+       M3                     from M1 (Proofs/FermatC10.v)
+       M4                     Proofs/EcAssoc.v (non-singularity decided by computation)
+       n * G = O              hinted double-and-add certificates, Proofs/OrderCert.v + CurveOrderK1/R1/Bls.v + ShippedOrder.v
+     every other side condition is decided by computation on the table (C02_shipped_side_conditions).  The general
+     C02_shipped_fixed_base / C02_shipped_multiply (premises as hypotheses) are kept.
+   NOT proved: "every on-curve point is killed by n" (cofactor 1, a point count; false for bls12_381_g1) — statements about an
+   arbitrary point P keep `order_kills c P` as a hypothesis on that point (C02_shipped_multiply_killed_point), and
+   C02_points_for_x_odd_order_nonsingular keeps it as a hypothesis on the curve. *)
 From Coq Require Import ZArith Znumtheory List.
 From PV Require Import Base.Outcome Model.Curve Spec.Weierstrass Gen.GenCurves
-  Proofs.CurveInvP Proofs.CurveAddP Proofs.CurveMulP Proofs.CurveSqrtP Proofs.CurveToy Proofs.CurveP.
+  Proofs.CurveInvP Proofs.CurveAddP Proofs.CurveMulP Proofs.CurveSqrtP Proofs.CurveToy Proofs.CurveP Proofs.OrderCert Proofs.ShippedOrder Proofs.ShippedUncond.
 Local Open Scope Z_scope.
 
 (* ---- inverse_mod: total on coprime inputs (the fuel derived from log2 m always suffices), correct, in range ---- *)
@@ -187,7 +200,8 @@ Proof. exact toy_points_for_x. Qed.
 Print Assumptions C02_toy_points_for_x.
 
 (* ---- the shipped generators (table regenerated from /repo): G on the curve and reduced, p = 3 mod 4, n odd,
-        n <= 2^bit_count, bit_count = max(256, bit_length n) are decided by computation; M1, M4, n*G = O stay premises ---- *)
+        n <= 2^bit_count, bit_count = max(256, bit_length n) are decided by computation; in the next three statements
+        M1, M4, n*G = O are hypotheses (general form); at the end of the file the versions with every premise proved ---- *)
 Theorem C02_shipped_side_conditions : forallb shipped_checkb shipped_curves = true.
 Proof. exact shipped_ok. Qed.
 Print Assumptions C02_shipped_side_conditions.
@@ -206,3 +220,137 @@ Theorem C02_shipped_multiply : forall t, In t shipped_curves ->
   forall e : Z, multiply c P e = Ret (kP c e (red c P)).
 Proof. exact shipped_multiply. Qed.
 Print Assumptions C02_shipped_multiply.
+
+(* ---- M4 is a theorem: associativity of chord-and-tangent addition on every non-singular curve over F_p, p an odd prime
+        (Proofs/EcAssocAlg.v, EcAssocGrp.v, EcAssocFp.v, EcAssoc.v).  The generic statements above with `M4 c` replaced by the
+        computable `nonsingular c`, and M3 dropped ---- *)
+Theorem C02_M4_of_nonsingular : forall c : curve, M1 c -> cp c <> 2 -> nonsingular c -> M4 c.
+Proof. exact M4_of_nonsingular. Qed.
+Print Assumptions C02_M4_of_nonsingular.
+
+Theorem C02_add_associative_nonsingular : forall c : curve, M1 c -> cp c <> 2 -> nonsingular c ->
+  forall P Q R : pt, on_curve c P -> on_curve c Q -> on_curve c R ->
+  same_element c (bind (add c P Q) (fun S => add c S R)) (bind (add c Q R) (fun S => add c P S)).
+Proof. exact add_assoc_nonsingular. Qed.
+Print Assumptions C02_add_associative_nonsingular.
+
+Theorem C02_multiply_correct_nonsingular : forall c : curve, M1 c -> cp c <> 2 -> nonsingular c ->
+  forall (P : pt) (e : Z), on_curve c P -> 0 < cn c -> order_kills c (red c P) ->
+  exists R, multiply c P e = Ret R /\ on_curve c R /\ red c R = kP c e (red c P).
+Proof. exact multiply_correct_nonsingular. Qed.
+Print Assumptions C02_multiply_correct_nonsingular.
+
+Theorem C02_multiply_exact_nonsingular : forall c : curve, M1 c -> cp c <> 2 -> nonsingular c ->
+  forall (P : pt) (e : Z), on_curve c P -> 0 < cn c -> Z.odd (cn c) = true -> order_kills c (red c P) ->
+  multiply c P e = Ret (kP c e (red c P)).
+Proof. exact multiply_exact_nonsingular. Qed.
+Print Assumptions C02_multiply_exact_nonsingular.
+
+Theorem C02_multiply_without_order_nonsingular : forall c : curve, M1 c -> cp c <> 2 -> nonsingular c ->
+  forall (P : pt) (e : Z), on_curve c P -> cn c = 0 -> 0 <= e ->
+  exists R, multiply c P e = Ret R /\ on_curve c R /\ red c R = kP c e (red c P).
+Proof. exact multiply_no_order_nonsingular. Qed.
+Print Assumptions C02_multiply_without_order_nonsingular.
+
+Theorem C02_raw_mul_and_blinded_mul_correct_nonsingular : forall c : curve, M1 c -> cp c <> 2 -> nonsingular c ->
+  forall g : gen, gc g = c -> valid c (gG g) -> 0 < cn c <= 2 ^ Z.of_nat (g_bits g) -> order_kills c (gG g) ->
+  forall e : Z, gmul g e = Ret (kP c e (gG g)) /\ raw_mul g e = Ret (kP c e (gG g)).
+Proof. exact fixed_base_exact_nonsingular. Qed.
+Print Assumptions C02_raw_mul_and_blinded_mul_correct_nonsingular.
+
+Theorem C02_points_for_x_odd_order_nonsingular : forall c : curve, M1 c -> cp c mod 4 = 3 -> nonsingular c ->
+  Z.odd (cn c) = true -> (forall P, valid c P -> order_kills c P) ->
+  forall (g : gen) (x : Z), gc g = c ->
+  match points_for_x g x with
+  | Ret (P0, P1) =>
+      exists y0 y1, P0 = Some (x, y0) /\ P1 = Some (x, y1) /\ Z.even y0 = true /\ Z.odd y1 = true /\
+        0 < y0 < cp c /\ 0 < y1 < cp c /\ y0 + y1 = cp c /\
+        forall y, 0 <= y < cp c -> (on_curve c (Some (x, y)) <-> y = y0 \/ y = y1)
+  | Raise _ => forall y, ~ on_curve c (Some (x, y))
+  | OutOfFuel => False
+  end.
+Proof. exact points_for_x_odd_order_nonsingular. Qed.
+Print Assumptions C02_points_for_x_odd_order_nonsingular.
+
+(* "n * G = O" need not be assumed either: it is implied by a certificate the kernel can check — `order_certb c G n hints`
+   re-runs a left-to-right double-and-add of n * G with the model's own addition formulas, the modular inverses being supplied
+   as hints and each checked ((d * i) mod p = 1, which pins down the result of the model's inverse_mod) *)
+Theorem C02_order_certificate_sound : forall c : curve, M1 c -> cp c <> 2 -> nonsingular c ->
+  forall (G : pt) (hints : list Z), validb c G = true -> order_certb c G (cn c) hints = true -> order_kills c G.
+Proof. exact order_cert_kills. Qed.
+Print Assumptions C02_order_certificate_sound.
+
+(* ---- the shipped generators: EVERY premise is a theorem, for every row of the table: M1, M2 (n prime) by primality
+        certificates checked by the kernel, M3 from M1, M4 by Proofs/EcAssoc.v, n * G = O by the order certificate ---- *)
+Theorem C02_shipped_all_premises : forall t, In t shipped_curves ->
+  let c := shipped_curve t in
+  M1 c /\ prime (cn c) /\ M3 c /\ M4 c /\ order_kills c (shipped_G t).
+Proof. exact shipped_all_premises. Qed.
+Print Assumptions C02_shipped_all_premises.
+
+Theorem C02_secp256k1_order_unconditional :
+  kP (shipped_curve secp256k1_row) secp256k1_n (shipped_G secp256k1_row) = None.
+Proof. exact secp256k1_order_kills_unconditional. Qed.
+Print Assumptions C02_secp256k1_order_unconditional.
+
+Theorem C02_secp256r1_order_unconditional :
+  kP (shipped_curve secp256r1_row) secp256r1_n (shipped_G secp256r1_row) = None.
+Proof. exact secp256r1_order_kills_unconditional. Qed.
+Print Assumptions C02_secp256r1_order_unconditional.
+
+Theorem C02_bls12_381_g1_order_unconditional :
+  kP (shipped_curve bls12_381_g1_row) bls12_381_g1_n (shipped_G bls12_381_g1_row) = None.
+Proof. exact bls12_381_g1_order_kills_unconditional. Qed.
+Print Assumptions C02_bls12_381_g1_order_unconditional.
+
+(* the order statement was first obtained from M4 alone (kept: it shows what the certificate needs) *)
+Theorem C02_shipped_order_from_M4 : forall t, In t shipped_curves ->
+  M4 (shipped_curve t) -> order_kills (shipped_curve t) (shipped_G t).
+Proof. exact shipped_order_kills. Qed.
+Print Assumptions C02_shipped_order_from_M4.
+
+(* ---- no premise: fixed-base multiplication (blinded or not, any blinding factor) is e * G ---- *)
+Theorem C02_shipped_fixed_base_unconditional : forall t, In t shipped_curves ->
+  let c := shipped_curve t in
+  forall blind e : Z, gmul (shipped_gen t blind) e = Ret (kP c e (shipped_G t)) /\
+                      raw_mul (shipped_gen t blind) e = Ret (kP c e (shipped_G t)).
+Proof. exact shipped_fixed_base_unconditional. Qed.
+Print Assumptions C02_shipped_fixed_base_unconditional.
+
+(* no premise: Curve.multiply on the generator, every integer scalar *)
+Theorem C02_shipped_multiply_G_unconditional : forall t, In t shipped_curves ->
+  let c := shipped_curve t in
+  forall e : Z, multiply c (shipped_G t) e = Ret (kP c e (shipped_G t)).
+Proof. exact shipped_multiply_G_unconditional. Qed.
+Print Assumptions C02_shipped_multiply_G_unconditional.
+
+(* Curve.multiply on an arbitrary on-curve point: the only hypothesis is that n kills THAT point (see the header: cofactor) *)
+Theorem C02_shipped_multiply_killed_point : forall t, In t shipped_curves ->
+  let c := shipped_curve t in
+  forall P : pt, on_curve c P -> order_kills c (red c P) ->
+  forall e : Z, multiply c P e = Ret (kP c e (red c P)).
+Proof. exact shipped_multiply_killed_point. Qed.
+Print Assumptions C02_shipped_multiply_killed_point.
+
+(* no premise: the model's add is associative on the shipped curves (arbitrary, possibly unreduced, on-curve operands) *)
+Theorem C02_shipped_add_associative : forall t, In t shipped_curves ->
+  let c := shipped_curve t in
+  forall P Q R : pt, on_curve c P -> on_curve c Q -> on_curve c R ->
+  same_element c (bind (add c P Q) (fun S => add c S R)) (bind (add c Q R) (fun S => add c P S)).
+Proof. exact shipped_add_associative. Qed.
+Print Assumptions C02_shipped_add_associative.
+
+(* no premise: points_for_x on the shipped curves (never needed M4; M1, M3 proved) *)
+Theorem C02_shipped_points_for_x : forall t, In t shipped_curves ->
+  let c := shipped_curve t in
+  forall (g : gen) (x : Z), gc g = c -> ~ on_curve c (Some (x, 0)) ->
+  match points_for_x g x with
+  | Ret (P0, P1) =>
+      exists y0 y1, P0 = Some (x, y0) /\ P1 = Some (x, y1) /\ Z.even y0 = true /\ Z.odd y1 = true /\
+        0 < y0 < cp c /\ 0 < y1 < cp c /\ y0 + y1 = cp c /\
+        forall y, 0 <= y < cp c -> (on_curve c (Some (x, y)) <-> y = y0 \/ y = y1)
+  | Raise _ => forall y, ~ on_curve c (Some (x, y))
+  | OutOfFuel => False
+  end.
+Proof. exact shipped_points_for_x. Qed.
+Print Assumptions C02_shipped_points_for_x.
